@@ -224,8 +224,11 @@ def check_calibration(mods, x, y, nt, levels, quant, want, kind, sign, rng):
     out.append(('LowerIsSigLevelQuantile', 'estimate-lower=%.12g demanded q_s*scale=%.12g' % (est - lower, qs * scale) + tag))
   elif not rclose(lower, qp * scale, 1e-6, scale):
     out.append(('LowerBoundIsPowerQuantileTimesScale', 'lower=%.12g demanded q_p*scale=%.12g' % (lower, qp * scale) + tag))
-  # the design-side posterior of the same experiment
+  # the design-side posterior of the same experiment; on half of the objects every test has been read before, as on
+  # the diagnostics object of a design returned by a search
   try:
+    if int(abs(ri) * 1000) % 2 == 0:
+      _ = (diag.aatest, diag.bbtest, diag.dwtest, diag.tests_ok)
     f = diag.tbrfit(float(xt), float(yt_day))
     if not rclose(float(f.estimate), ri_exp, 1e-7, scale):
       out.append(('DesignFitEstimatesTheLift', 'tbrfit estimate=%.12g, planted RI=%.12g' % (f.estimate, ri_exp) + tag))
